@@ -351,7 +351,12 @@ pub struct LMsg {
 /// Source of values for bits the RFCs say a receiver must ignore.
 /// `Zero` gives the canonical encoding (what a sender must produce).
 pub trait Noise {
+    /// value for a reserved / RFFU byte
     fn byte(&mut self) -> u8;
+    /// value for a padding byte
+    fn pad(&mut self) -> u8 {
+        self.byte()
+    }
     fn bits(&mut self, n: u32) -> u32 {
         let mut v = 0u32;
         for i in 0..((n + 7) / 8) {
@@ -380,6 +385,17 @@ impl Noise for RngNoise<'_> {
 }
 
 /// Fixed byte (used for exhaustive small-k sweeps: all bits set / custom padding)
+/// Only padding bytes carry the value, reserved fields stay zero (RFC 5769 vectors)
+pub struct PadOnly(pub u8);
+impl Noise for PadOnly {
+    fn byte(&mut self) -> u8 {
+        0
+    }
+    fn pad(&mut self) -> u8 {
+        self.0
+    }
+}
+
 pub struct Const(pub u8);
 impl Noise for Const {
     fn byte(&mut self) -> u8 {
@@ -466,7 +482,7 @@ pub fn attr_value(a: &LAttr, txid: &[u8; 12], noise: &mut dyn Noise) -> Vec<u8> 
                 // (not included), recorded as an assumption
                 if i + 1 < list.len() {
                     for _ in 0..pad_len(params.len()) {
-                        v.push(noise.byte());
+                        v.push(noise.pad());
                     }
                 }
             }
@@ -510,6 +526,29 @@ pub fn attr_value(a: &LAttr, txid: &[u8; 12], noise: &mut dyn Noise) -> Vec<u8> 
             unreachable!("computed by build()")
         }
     }
+}
+
+/// RFC 3261 quoted-string content (what REALM / NONCE carry on the wire): a sequence of
+/// qdtext and quoted-pairs, i.e. no bare DQUOTE and every backslash starts a pair.
+pub fn valid_quoted_content(text: &str) -> bool {
+    let mut it = text.chars();
+    while let Some(c) = it.next() {
+        if c == '"' {
+            return false;
+        }
+        if c == '\\' {
+            match it.next() {
+                Some(n) => {
+                    let n = n as u32;
+                    if n > 0x7F || n == 0x0A || n == 0x0D {
+                        return false;
+                    }
+                }
+                None => return false,
+            }
+        }
+    }
+    true
 }
 
 pub fn pad_len(n: usize) -> usize {
@@ -665,7 +704,7 @@ pub fn build_raw(method: u16, class: u8, txid: &[u8; 12], attrs: &[WAttr], noise
         out.extend_from_slice(&(value.len() as u16).to_be_bytes());
         out.extend_from_slice(&value);
         for _ in 0..pad_len(value.len()) {
-            out.push(noise.byte());
+            out.push(noise.pad());
         }
     }
     let l = (out.len() - 20) as u16;
